@@ -30,6 +30,7 @@ fn main() {
                 events: 0,
                 panics: 0,
                 skipped: 0,
+                extra: None,
             };
             for line in inp.lines() {
                 let line = line.expect("read");
